@@ -333,6 +333,77 @@ def run_missing_rule_cases(res):
                     res["sets"].setdefault("missing_rule_exceptions", set()).add(raised)
 
 
+def run_deprecated_api_cases(res):
+    """The pre-1.2 registration methods of `autograd.primitive` objects (defvjp(fn, argnum=), defgrad,
+    defvjp_is_zero) in every order and split of calls: each must yield the same rules as one combined call."""
+    import autograd
+    import autograd.numpy as anp
+    from autograd import grad
+
+    x0, y0, z0 = 0.7, -1.3, 2.1
+    raw = lambda x, y, z: x * onp.sin(y) + y * z * z
+    true = {0: onp.sin(y0), 1: x0 * onp.cos(y0) + z0 * z0, 2: 2 * y0 * z0}
+    mk = {0: lambda g, ans, vs, gvs, x, y, z: g * anp.sin(y), 1: lambda g, ans, vs, gvs, x, y, z: g * (x * anp.cos(y) + z * z), 2: lambda g, ans, vs, gvs, x, y, z: g * 2 * y * z}
+    mkg = {0: lambda ans, x, y, z: lambda g: g * anp.sin(y), 1: lambda ans, x, y, z: lambda g: g * (x * anp.cos(y) + z * z), 2: lambda ans, x, y, z: lambda g: g * 2 * y * z}
+    bucket = lambda x, e, s: onp.floor(x / e) * e * onp.sign(s)  # piecewise constant in all three
+    for order in itertools.permutations(range(3)):
+        for api in ("defvjp", "defgrad"):
+            res["evaluations"] += 1
+            sig = {"engine": "ext", "family": "deprecated_api", "api": api, "order": list(order)}
+            case = {"kind": "deprecated", "api": api, "order": list(order)}
+            try:
+                with warnings.catch_warnings():
+                    warnings.simplefilter("ignore")
+                    p = autograd.primitive(raw)
+                    bad = None
+                    for k, i in enumerate(order):
+                        (p.defvjp if api == "defvjp" else p.defgrad)((mk if api == "defvjp" else mkg)[i], argnum=i)
+                        # rules registered so far work, also jointly
+                        done = sorted(order[: k + 1])
+                        for j in done:
+                            r = grad(p, j)(x0, y0, z0)
+                            if abs(float(r) - true[j]) > 1e-12:
+                                bad = "after registering %s: gradient w.r.t. argument %d is %r, expected %r" % (list(order[: k + 1]), j, r, true[j])
+                        rj = grad(lambda t: p(t[0] if 0 in done else x0, t[1] if 1 in done else y0, t[2] if 2 in done else z0))((x0, y0, z0))
+                        for j in done:
+                            if abs(float(rj[j]) - true[j]) > 1e-12:
+                                bad = "joint gradient after registering %s: entry %d is %r, expected %r" % (list(order[: k + 1]), j, rj[j], true[j])
+                    if bad:
+                        res["violations"].append({"sig": dict(sig, symptom="wrong_value"), "case": case, "detail": bad})
+                        continue
+            except Exception as e:
+                res["violations"].append({"sig": dict(sig, symptom="exception:" + type(e).__name__), "case": case, "detail": traceback.format_exc()[-400:]})
+                continue
+            res["judged"][sig_key(sig)] = 1
+    # defvjp_is_zero: one call with all positions, or one call per position in any order
+    splits = [[(0, 1, 2)], [(0,), (1,), (2,)], [(2,), (0,), (1,)], [(1,), (0, 2)], [(0, 2), (1,)], [(1,), (2,), (0,)], [(0,), (0, 1), (2,)]]
+    for sp in splits:
+        res["evaluations"] += 1
+        sig = {"engine": "ext", "family": "deprecated_api", "api": "defvjp_is_zero", "split": [list(t) for t in sp]}
+        case = {"kind": "deprecated", "api": "defvjp_is_zero", "split": [list(t) for t in sp]}
+        try:
+            with warnings.catch_warnings():
+                warnings.simplefilter("ignore")
+                p = autograd.primitive(bucket)
+                for t in sp:
+                    p.defvjp_is_zero(t)
+                bad = None
+                for j in range(3):
+                    r = grad(lambda *a: p(*a) * 1.0 + a[j] * 0.0 + 3.0 * a[j], j)(2.3, 0.5, -1.2)
+                    if float(r) != 3.0:
+                        bad = "argument %d: %r, expected exactly 3.0 (zero through the primitive)" % (j, r)
+                rj = grad(lambda t: p(t[0], t[1], t[2]) * 1.0 + t[0] + 2.0 * t[1] + 3.0 * t[2])((2.3, 0.5, -1.2))
+                if [float(v) for v in rj] != [1.0, 2.0, 3.0]:
+                    bad = "joint gradient %r, expected (1, 2, 3)" % (rj,)
+            if bad:
+                res["violations"].append({"sig": dict(sig, symptom="wrong_value"), "case": case, "detail": bad})
+                continue
+        except Exception as e:
+            res["violations"].append({"sig": dict(sig, symptom="exception:" + type(e).__name__), "case": case, "detail": traceback.format_exc()[-400:]})
+            continue
+        res["judged"][sig_key(sig)] = 1
+
+
 def run_none_shape_cases(res):
     """None-registered arguments whose shape differs from the output's: the zero must live in the
     argument's space (reverse) / the output's space (forward)."""
@@ -497,6 +568,7 @@ def run_shard(pid, tier, seed, idx, n):
         run_missing_rule_cases(res)
     if idx == 1 % n:
         run_none_shape_cases(res)
+        run_deprecated_api_cases(res)
     ncp = 400 if tier == "quick" else 6000
     for i in range(idx, ncp, n):
         rng = onp.random.Generator(onp.random.PCG64([seed, i, 37]))
@@ -520,6 +592,9 @@ def replay(pid, case):
         res["violations"] = [v for v in res["violations"] if v["case"] == case]
     elif k == "none_shape":
         run_none_shape_cases(res)
+        res["violations"] = [v for v in res["violations"] if v["case"] == case]
+    elif k == "deprecated":
+        run_deprecated_api_cases(res)
         res["violations"] = [v for v in res["violations"] if v["case"] == case]
     else:
         from ..common import dec
